@@ -303,7 +303,11 @@ impl Kinematics for OPWKinematics {
     }
 
     fn kinematic_singularity(&self, joints: &Joints) -> Option<Singularity> {
-        if is_close_to_multiple_of_pi(joints[J5], SINGULARITY_ANGLE_THR) {
+        // The singularity is geometric: use the angle the OPW model sees for joint 5
+        // (sign correction and offset applied the same way as in forward kinematics).
+        let j5 = joints[J5] * self.parameters.sign_corrections[J5] as f64
+            - self.parameters.offsets[J5];
+        if is_close_to_multiple_of_pi(j5, SINGULARITY_ANGLE_THR) {
             Some(Singularity::A)
         } else {
             None
@@ -780,11 +784,11 @@ impl OPWKinematics {
 // Adjusted helper function to check for n*pi where n is any integer
 fn is_close_to_multiple_of_pi(joint_value: f64, threshold: f64) -> bool {
 
-    // Normalize angle within [0, 2*PI)
-    let normalized_angle = joint_value.rem_euclid(2.0 * PI);
-    // Check if the normalized angle is close to 0 or PI
+    // Normalize angle within [0, PI)
+    let normalized_angle = joint_value.rem_euclid(PI);
+    // Check if the normalized angle is close to a multiple of PI from either side
     normalized_angle < threshold ||
-        (PI - normalized_angle).abs() < threshold
+        (PI - normalized_angle) < threshold
 }
 
 fn are_angles_close(angle1: f64, angle2: f64) -> bool {
